@@ -102,3 +102,15 @@ pub fn draw_prebuf(g: &mut vcore::Gen) -> &'static str {
     label
 }
 pub fn take_prebuf() -> Option<Vec<u8>> { PREBUF.with(|p| p.borrow_mut().take()) }
+
+thread_local! {
+    /// Kind of the transient I/O errors the scripted transports inject (the injected errors are recognised by their
+    /// message, so any kind - UnexpectedEof, Interrupted, WouldBlock ... - can be used).
+    pub static ERR_KIND: std::cell::Cell<std::io::ErrorKind> = const { std::cell::Cell::new(std::io::ErrorKind::ConnectionReset) };
+}
+pub const TRANSIENT: &str = "transient scripted error";
+pub const ERR_KINDS: [std::io::ErrorKind; 7] = [std::io::ErrorKind::ConnectionReset, std::io::ErrorKind::UnexpectedEof, std::io::ErrorKind::Interrupted, std::io::ErrorKind::WouldBlock,
+                                                std::io::ErrorKind::TimedOut, std::io::ErrorKind::WriteZero, std::io::ErrorKind::Other];
+pub fn set_err_kind(k: std::io::ErrorKind) { ERR_KIND.with(|c| c.set(k)) }
+pub fn transient_error() -> std::io::Error { std::io::Error::new(ERR_KIND.with(|c| c.get()), TRANSIENT) }
+pub fn is_transient(e: &std::io::Error) -> bool { e.get_ref().map(|x| x.to_string() == TRANSIENT).unwrap_or(false) }
